@@ -162,3 +162,50 @@ hsum!(c05_agg_sum_vvv, false, false, false);
 hsum!(c05_agg_sum_nvn, true, false, true);
 // @obl harness=c05_agg_sum_nnn id=C05.aggregate[SUM,AVG,COUNT/NULL,NULL,NULL] tier=off funcs="Accumulator::accumulate,Accumulator::finalize" bounds="all-NULL group" unwind=5
 hsum!(c05_agg_sum_nnn, true, true, true);
+
+
+// COUNT(expr) counts the rows where expr is not NULL; COUNT(*) counts rows.  The property text names this case
+// ("COUNT(col) counting NULLs"); the operator feeds `accumulate` for COUNT(expr) and `accumulate_star` for COUNT(*).
+fn count_case(n0: bool, n1: bool, n2: bool) {
+    let xs: [i64; 3] = kani::any();
+    let nulls = [n0, n1, n2];
+    let mut ct = Accumulator::Count { count: 0 };
+    let mut st = Accumulator::Count { count: 0 };
+    let mut rn: i64 = 0;
+    let mut i = 0;
+    while i < 3 {
+        let d = if nulls[i] { DataType::Null } else { DataType::BigInt(Int64(xs[i])) };
+        assert!(okf(ct.accumulate(&d)).is_some(), "accumulate_ok");
+        st.accumulate_star();
+        if !nulls[i] {
+            rn += 1;
+        }
+        std::mem::forget(d);
+        i += 1;
+    }
+    match (okf(ct.finalize()), okf(st.finalize())) {
+        (Some(c), Some(s)) => {
+            assert!(as_i64(&c) == Some(rn), "count_of_an_expression_skips_nulls");
+            assert!(as_i64(&s) == Some(3), "count_star_counts_every_row");
+            std::mem::forget(c);
+            std::mem::forget(s);
+        }
+        _ => assert!(false, "finalize_ok"),
+    }
+}
+macro_rules! hcount {
+    ($name:ident, $a:expr, $b:expr, $c:expr) => {
+        #[kani::proof]
+        #[kani::unwind(5)]
+        fn $name() {
+            kani::cover!(true, "reach");
+            count_case($a, $b, $c);
+        }
+    };
+}
+// @obl harness=c05_agg_count_vvv id=C05.aggregate[COUNT/v,v,v] tier=quick funcs="Accumulator::accumulate,Accumulator::accumulate_star,Accumulator::finalize" bounds="group of 3 non-NULL BIGINT rows (any values)" unwind=5 native=c05_count_skips_nulls
+hcount!(c05_agg_count_vvv, false, false, false);
+// @obl harness=c05_agg_count_nvn id=C05.aggregate[COUNT/NULL,v,NULL] tier=quick funcs="Accumulator::accumulate,Accumulator::accumulate_star,Accumulator::finalize" bounds="NULL, value, NULL: COUNT(expr) = 1, COUNT(*) = 3" unwind=5 native=c05_count_skips_nulls
+hcount!(c05_agg_count_nvn, true, false, true);
+// @obl harness=c05_agg_count_nnn id=C05.aggregate[COUNT/NULL,NULL,NULL] tier=quick funcs="Accumulator::accumulate,Accumulator::accumulate_star,Accumulator::finalize" bounds="all-NULL group: COUNT(expr) = 0, COUNT(*) = 3" unwind=5 native=c05_count_skips_nulls
+hcount!(c05_agg_count_nnn, true, true, true);
